@@ -270,6 +270,61 @@ print(r["text"]); print("what    :", r["what"]); print("observed:", r["observed"
 '''
 
 
+def deep_case(depth, kind):
+    """an error deep inside nested brackets / signs / powers (ungrammatical by construction: two adjacent numbers) must still
+    be reported as BlackbirdSyntaxError at the second number, provided the well-formed script of the same depth loads"""
+    import blackbird
+    from blackbird.error import BlackbirdSyntaxError
+    if kind.startswith("brackets"):
+        good, bad = "(" * depth + "1" + ")" * depth, "(" * depth + "1 7" + ")" * depth
+    elif kind.startswith("signs"):
+        good, bad = "-" * depth + "1", "-" * depth + "1 7"
+    else:
+        good, bad = "2**" * depth + "1", "2**" * depth + "1 7"
+    kind, _, where = kind.partition("/")
+    pre, post, line = {"": ("Dgate(", ") | 0\n", 4), "variable": ("float x = ", "\n", 4), "array row": ("float array A =\n    0.5, ", "\n", 5)}[where]
+    head = "name deep\nversion 1.0\n\n" + pre
+    import sys
+    old_limit = sys.getrecursionlimit()
+    sys.setrecursionlimit(1000)        # the interpreter's default (this process runs with a much higher limit)
+    try:
+        return _deep(blackbird, BlackbirdSyntaxError, head, good, bad, pre, post, line, depth, kind, where)
+    finally:
+        sys.setrecursionlimit(old_limit)
+
+
+def _deep(blackbird, BlackbirdSyntaxError, head, good, bad, pre, post, line, depth, kind, where):
+    try:
+        blackbird.loads(head + good + post)
+    except RecursionError:
+        return "skip"
+    except Exception:  # noqa (overflow of the value etc.: the syntax stage was passed)
+        pass
+    text = head + bad + post
+    col = len(pre.split("\n")[-1]) + bad.index(" 7") + 1
+    base = {"text": "an error at nesting depth %d (%s %s): %s...%s" % (depth, kind, where, text[:60], text[-30:]), "values": [depth, kind]}
+    try:
+        blackbird.loads(text)
+    except BlackbirdSyntaxError as e:
+        m = str(e.args[0]) if e.args else ""
+        if "(line %d:%d)" % (line, col + 1) not in m:
+            return dict(base, what="the message does not carry the position of the offending token", observed=m[:160], expected="(line %d:%d)" % (line, col + 1))
+        return None
+    except BaseException as e:  # noqa
+        return dict(base, what="an ungrammatical script raises %s instead of BlackbirdSyntaxError" % type(e).__name__, observed="%s: %s" % (type(e).__name__, str(e)[:120]), expected="BlackbirdSyntaxError")
+    return dict(base, what="an ungrammatical script is loaded without error", observed="a program", expected="BlackbirdSyntaxError")
+
+
+REPLAY_DEEP = '''#!/usr/bin/env python
+import sys; sys.path.insert(0, %(root)r)
+from bbverif.checks import c10
+r = c10.deep_case(%(depth)r, %(kind)r)
+if r in (None, "skip"):
+    print("as demanded"); sys.exit(0)
+print(r["text"]); print("what    :", r["what"]); print("observed:", r["observed"]); print("expected:", r["expected"]); sys.exit(1)
+'''
+
+
 def o3_chunk(chunk):
     lg = _lang()
     out = []
@@ -352,6 +407,20 @@ def main():
                         else:
                             os.unlink(pth)
     rep.obligation("O3 %d mutants through loads: class and position of the error" % len(texts), "holds" if nviol == 0 else "violated", violating=nviol, still_sentences=nsent)
+    # errors deep inside nested expressions (concrete; the generated parser is recursive descent)
+    ndeep = 0
+    for kind in ("brackets", "signs", "powers", "brackets/variable", "brackets/array row", "signs/variable", "powers/array row"):
+        for depth in (10, 40, 80, 120, 160, 200, 250, 300, 350, 400, 450, 500, 600, 750, 900):
+            r = deep_case(depth, kind)
+            if r == "skip":
+                continue
+            ndeep += 1
+            rep.validated += 1
+            if isinstance(r, dict) and len(rep.violations) < 6:
+                rep.violation("deep %s: %s" % (kind, r["what"].split(":")[0]), "%s\n%s\nobserved: %s\nexpected: %s" % (r["what"], r["text"], r["observed"], r["expected"]),
+                              REPLAY_DEEP % {"root": common.ROOT, "depth": depth, "kind": kind}, "deep_%s_%d" % (kind.replace("/", "_").replace(" ", "_"), depth))
+    rep.obligation("O3b errors at nesting depths 10..900 (brackets / signs / powers; depths the parser itself cannot reach are skipped): %d cases" % ndeep,
+                   "holds" if not any(v.get("key", "").startswith("deep") for v in rep.violations) else "violated")
     rep.extra["distinct_error_states"] = len(states)
     # O2 on one representative text per distinct state
     jobs = [(text, desc) for key, (text, desc) in sorted(states.items(), key=lambda kv: repr(kv[0]))]
